@@ -30,6 +30,7 @@
 #include <sys/mount.h>
 #include <sys/prctl.h>
 #include <sys/socket.h>
+#include <sys/auxv.h>
 #include <sys/resource.h>
 #include <sys/stat.h>
 #include <sys/syscall.h>
@@ -1365,7 +1366,7 @@ int main(int argc, char **argv) {
     const char *off = getenv("VDRIVE_REPO_COUNT_OFF");
     if (off) g_repo_count_off = strtol(off, NULL, 0);
 
-    eb_printf("{\"ev\":\"START\",\"pid\":%d,\"snoopy_loaded\":%d}\n", getpid(), g_snoopy_base != 0);
+    eb_printf("{\"ev\":\"START\",\"pid\":%d,\"snoopy_loaded\":%d,\"at_secure\":%lu}\n", getpid(), g_snoopy_base != 0, getauxval(AT_SECURE));
     eb_flush();
     run_script();
     eb_printf("{\"ev\":\"FINISH\",\"pid\":%d}\n", getpid());
